@@ -38,6 +38,11 @@ def configs(tier, seed):
                     {"strict_threshold": True, "replace_all": True, "reparameterisation": None}]
         for i, v in enumerate(variants):
             out.append({"seed": 100 * seed + i + 1, "kwargs": {**base, **v}})
+        # a prior that vanishes inside its bounding box (draws are rejected on logP), and a non-constant
+        # unit-hypercube prior (logU != 0)
+        out.append({"seed": 100 * seed + 50, "model": "constrained", "kwargs": dict(base)})
+        out.append({"seed": 100 * seed + 51, "model": "gaussprior", "kwargs": {**base, "max_iteration": 4}})
+        out.append({"seed": 100 * seed + 52, "model": "gaussprior", "kwargs": {**base, "draw_iid_live": False, "strict_threshold": True}})
     else:
         i = 0
         for st, ra, dc, iid, rp in itertools.product([False, True], [False, True], [True, False], [True, False],
@@ -45,7 +50,7 @@ def configs(tier, seed):
             i += 1
             kw = {**base, "nlive": 80, "max_iteration": 5, "min_samples": 30, "strict_threshold": st,
                   "replace_all": ra, "draw_constant": dc, "draw_iid_live": iid, "reparameterisation": rp}
-            out.append({"seed": 100 * seed + i, "kwargs": kw})
+            out.append({"seed": 100 * seed + i, "kwargs": kw, "model": ["uniform", "constrained", "gaussprior"][i % 3]})
     return out
 
 
